@@ -85,9 +85,12 @@ Section codec.
   Definition next_str (bs : bytes) : option (option bytes * bytes) :=
     match read_cstr bs with
     | None => None
-    | Some ([], r) => Some (None, r)
-    | Some ([32], r) => Some (Some [], r)
-    | Some (s, r) => Some (Some s, r)
+    | Some (s, r) =>
+        match s with
+        | [] => Some (None, r)
+        | [b] => if b =? 32 then Some (Some [], r) else Some (Some s, r)
+        | _ => Some (Some s, r)
+        end
     end.
 
   Definition rd16 (bs : bytes) : option (N * bytes) :=
@@ -175,6 +178,6 @@ Definition norm_info (i : info) : info :=
 
 (** A string survives [_write_nullstring] / [iter_nullstr]: no NUL byte, all bytes < 256, not the single space. *)
 Definition str_ok (s : bytes) : bool :=
-  forallb (fun b => negb (b =? 0) && (b <? 256)) s && negb (match s with [32] => true | _ => false end).
+  forallb (fun b => negb (b =? 0) && (b <? 256)) s && negb (match s with [b] => b =? 32 | _ => false end).
 Definition key_ok (k : key) : bool :=
   let '(e, d, n) := k in str_ok e && str_ok d && str_ok n.
